@@ -790,4 +790,4 @@ def check_claims_replaced(ctx):
 # A sketch of the repair of F63/F64 (known findings of R-C09-13): the run reports go through helpers that select by the
 # node's current state.  Not behaviour-preserving; replayed as a variant by every property with a rule about those calls,
 # none of which may alarm on it.
-REPAIR_SKETCH_F63 = Variant("run-reports-repaired-through-helpers", "executor.py", lambda t: (t.replace("            self.workflow.update_file_hashes(\n                new_out_hashes,\n                cause=HashUpdateCause.SUCCEEDED if run.success else HashUpdateCause.FAILED,\n            )\n", "            self._record_outputs(\n                new_out_hashes,\n                HashUpdateCause.SUCCEEDED if run.success else HashUpdateCause.FAILED,\n            )\n", 1).replace("            self.workflow.update_file_hashes(new_inp_hashes, cause=HashUpdateCause.FAILED)\n        elif wants_defer:", "            self._record_changed_inputs(new_inp_hashes)\n        elif wants_defer:", 1).replace("    def _record_written_outputs(self, out_hashes: Mapping[str, FileHash]) -> None:\n", "    def _record_outputs(self, out_hashes, cause) -> None:\n        kept = {}\n        for path, file_hash in out_hashes.items():\n            file = self.workflow.find(File, path)\n            if file is not None and file.get_state() in (FileState.PLANNED, FileState.OUTDATED):\n                kept[path] = file_hash\n        self.workflow.update_file_hashes(kept, cause=cause)\n\n    def _record_changed_inputs(self, inp_hashes) -> None:\n        kept = {}\n        for path, file_hash in inp_hashes.items():\n            file = self.workflow.find(File, path)\n            if file is not None and file.get_state() in (FileState.CONFIRMED, FileState.MISSING, FileState.BUILT, FileState.OUTDATED, FileState.PLANNED):\n                kept[path] = file_hash\n        self.workflow.update_file_hashes(kept, cause=HashUpdateCause.FAILED)\n\n    def _record_written_outputs(self, out_hashes: Mapping[str, FileHash]) -> None:\n", 1)) if "new_inp_hashes, cause=HashUpdateCause.FAILED)\n        elif wants_defer:" in t and "                new_out_hashes,\n                cause=HashUpdateCause.SUCCEEDED if run.success" in t else None, "not behaviour-preserving: a sketch of the F63/F64 repair (selection by state in recording helpers); every rule of this property, R-C09-13 included, must be silent on it")
+REPAIR_SKETCH_F63 = Variant("run-reports-repaired-through-helpers", "executor.py", lambda t: (t.replace("            self.workflow.update_file_hashes(\n                new_out_hashes,\n                cause=HashUpdateCause.SUCCEEDED if run.success else HashUpdateCause.FAILED,\n            )\n", "            self._record_outputs(\n                new_out_hashes,\n                HashUpdateCause.SUCCEEDED if run.success else HashUpdateCause.FAILED,\n            )\n", 1).replace("    def _record_written_outputs(self, out_hashes: Mapping[str, FileHash]) -> None:\n", "    def _record_outputs(self, out_hashes, cause) -> None:\n        kept = {}\n        for path, file_hash in out_hashes.items():\n            file = self.workflow.find(File, path)\n            if file is not None and file.get_state() in (FileState.PLANNED, FileState.OUTDATED):\n                kept[path] = file_hash\n        self.workflow.update_file_hashes(kept, cause=cause)\n\n    def _record_written_outputs(self, out_hashes: Mapping[str, FileHash]) -> None:\n", 1)) if "                new_out_hashes,\n                cause=HashUpdateCause.SUCCEEDED if run.success" in t else None, "not behaviour-preserving: a sketch of the F63 repair (selection by state in a recording helper, as the F64 repair did for the inputs); every rule, R-C09-13 included, must be silent on it")
